@@ -61,6 +61,7 @@ STREAMS = {
     "agent-seq": {"n": {"quick": 3, "thorough": 4}, "nontrivial": None},
     "attrs-valid": {"n": {"quick": 1500, "thorough": 60000}, "nontrivial": nt_any},
     "attrs-malformed": {"n": {"quick": 1, "thorough": 30}, "nontrivial": nt_any},
+    "hmac-hist": {"n": {"quick": 400, "thorough": 20000}, "nontrivial": nt_any},
     "integrity": {"n": {"quick": 150, "thorough": 6000}, "nontrivial": nt_any, "predicate": pred_expect_reject},
     "fingerprint": {"n": {"quick": 100, "thorough": 5000}, "nontrivial": nt_any, "predicate": pred_expect_reject},
 }
@@ -228,5 +229,21 @@ PROPS = {
                 "and bursts of <= 32 bits (CRC bit order) of longer ones (predicate: must be rejected while FINGERPRINT "
                 "stays the only such attribute); FINGERPRINT attributes of any length/position; CRC-32 values against "
                 "hash/crc32",
+    },
+    "C18": {
+        "modules": ["Stun.Properties.C18"],
+        "theorems": ["Stun.C18.resetTo_establishes", "Stun.C18.new_good", "Stun.C18.write_good", "Stun.C18.sum_good",
+                     "Stun.C18.reset_good", "Stun.C18.sum_eq_spec", "Stun.C18.acquire_then_ops", "Stun.C18.write_append",
+                     "Stun.C18.hmacSpec_eq_rfc"],
+        "streams": ["hmac-hist"],
+        "tagsets": [["verif"], ["verif", "race"]],
+        "level": "proof",
+        "rule": "histories of acquire(key)/write*/sum/reset/put on up to 3 live pooled objects, keys 0..300 bytes on both "
+                "sides of the 64-byte block, messages 0..4096 bytes in random chunkings, SHA-1 and SHA-256, objects "
+                "returned to the pool and re-acquired with other keys; digests compared byte for byte with the Lean "
+                "RFC 2104 / SHA implementation; plus 8- and 2-goroutine concurrent pool use compared with crypto/hmac "
+                "(also under -race)",
+        "assumptions": ["sync.Pool hands one object to one taker at a time", "hash MarshalBinary/UnmarshalBinary "
+                        "round-trips the absorbed state"],
     },
 }
